@@ -228,3 +228,37 @@ def gen_history(rng):
     if rng.random() < 0.3:
         pre = rng.sample(WORDS, rng.randrange(1, 4))
     return pre, hist
+
+
+# ---------------------------------------------------------------- long passwords
+
+# nothing in the input filter bounds the length of a password: junk lines of real lists are hundreds of
+# characters of one repeated pattern
+LONG_FIXED = ["1qaz" * 101, "1qaz" * 102, "1qaz" * 150 + "x", "1qaz" * 100 + "password1", "1qaz!" * 130 + "end",
+              "qwer1qazzxcv" * 70, "1qaz2wsx" * 128, "7" * 400, "a" * 700, "!" * 500, "password" * 100, "pass1" * 150]
+
+
+def gen_long(rng):
+    """one long password (about 400 to 1500 characters): keyboard walks repeated more often than any
+    fixed number of levels, long runs of one character class, one trigger repeated hundreds of times"""
+    k = rng.random()
+    if k < 0.45:
+        n = rng.randint(101, 260)
+        ws = rng.choice([["1qaz"], ["qwer", "1qaz", "zxcv"], ["1qaz", "2wsx"], rng.sample(WALKS, 3), WALKS])
+        sep = rng.choice(["", "", "", "!", " ", "x", "7"])
+        s = sep.join(rng.choice(ws) for _ in range(n)) + rng.choice(["", "x", "end", "1", "!"])
+        fam = "long-walks"
+    elif k < 0.75:
+        n = rng.randint(400, 1000)
+        alphabet = rng.choice(["0123456789", "7", "abcdefgh", "a", "aB", "!", "!@#$ ", "жЖ", "²٣" + "12"])
+        s = "".join(rng.choice(alphabet) for _ in range(n))
+        if rng.random() < 0.3:
+            s = rng.choice(["x", "1", "!", "1qaz"]) + s + rng.choice(["x", "1", "!", "2019"])
+        fam = "long-run"
+    else:
+        trig = rng.choice(YEARS[:5] + CONTEXT[:8] + ["a@b.com", "www.a.com", "pass1", "password", "ab12!", "x2019", "love#1"])
+        sep = rng.choice(["", "", "!", "a", "1", " "])
+        s = (trig + sep) * rng.randint(100, 300)
+        fam = "long-repeat"
+    s = "".join(c for c in s if c not in EXCLUDED and ord(c) >= 0x20)
+    return s, [fam]
